@@ -782,7 +782,13 @@ func (o *oracles) checkC14(rep reporter, r *reply) {
 			return
 		}
 		if rr.skipped || rr.err != nil {
-			rep("serves-after-refusal", "serves-after-refusal "+seq[i].Kind+" after-refused-"+r.kind, "after the refused %s (%v) the canonical %s of a new BestEffort container failed: skipped=%v err=%v", r.kind, r.err, seq[i].Kind, rr.skipped, rr.err)
+			cause := ""
+			if rr.err != nil && strings.Contains(rr.err.Error(), "resize/deflate: failed to choose a cpuset") {
+				// F26: the balloons CPU tree allocator cannot pick CPUs to
+				// release; every StopContainer in that balloon fails from then on
+				cause = " balloon-deflate-failed"
+			}
+			rep("serves-after-refusal", "serves-after-refusal "+seq[i].Kind+" after-refused-"+r.kind+cause, "after the refused %s (%v) the canonical %s of a new BestEffort container failed: skipped=%v err=%v", r.kind, r.err, seq[i].Kind, rr.skipped, rr.err)
 			return
 		}
 	}
@@ -794,6 +800,15 @@ func (o *oracles) checkC14(rep reporter, r *reply) {
 // (topology-aware reinstates grants verbatim, F11/F24); a configuration update
 // was rejected and reverted in this incarnation (F16); an accepted
 // reconfiguration happened in this incarnation.
+func explainedByVerbatimReinstate(clause string) bool {
+	for _, c := range []string{"reserved-only-reserved-class", "within-available", "eligibility", "isolated-all-or-none", "shares"} {
+		if strings.HasSuffix(clause, c) {
+			return true
+		}
+	}
+	return false
+}
+
 func (o *oracles) cacheCpusetEmpty(y *rCtr) bool {
 	c, ok := o.w.cache().LookupContainer(y.spec.ID)
 	return ok && c.GetCpusetCpus() == "" && o.w.cfg.PinCPU && !o.w.cpuPreserved(y)
@@ -813,7 +828,10 @@ func (o *oracles) withCause(rep0 reporter) reporter {
 			switch {
 			case y != nil && y.lostGrant != "":
 				sig += " victim-lost-grant-in-" + y.lostGrant
-			case y != nil && y.cfgAtAlloc != nil && y.cfgAtAlloc != w.cfg:
+			case y != nil && y.cfgAtAlloc != nil && y.cfgAtAlloc != w.cfg && explainedByVerbatimReinstate(clause):
+				// F11/F24 explain a container keeping what the earlier
+				// configuration gave it; they do not explain two containers'
+				// CPU sets overlapping
 				sig += " allocated-under-previous-configuration"
 			case y != nil && o.cacheCpusetEmpty(y) && y.t.Cpus != "":
 				// F10: the grant's allowed set is empty, the plugin records an
